@@ -55,11 +55,12 @@ Definition has_dc (t : rt) (c : dcl) : bool :=
 Definition id0 (n : nat) : nat := 2 * n.
 Definition id1 (n : nat) : nat := 2 * n + 1.
 
-(* p2.add(c): a new plain node in t2 around the same data object; t2 is a
-   plain [Tree] with the default calc_data_id, so data_id = hash(data), kind
-   and meta are not copied *)
+(* _add_copy(p2, c): a new node in t2 around the same data object; t2 is a
+   fresh tree of t0's class with the default calc_data_id, so data_id =
+   hash(data); the kind of a typed node is kept (repair D60), meta is not
+   copied *)
 Definition res_info (i : info) (m : meta) : info :=
-  I (i_obj i) (i_eqc i) (i_hash i) (i_isstr i) (i_name i) (DInt (i_hash i)) None m.
+  I (i_obj i) (i_eqc i) (i_hash i) (i_isstr i) (i_name i) (DInt (i_hash i)) (i_kind i) m.
 
 (* diff.py:28-32  _find_child(arr, child): first element with [c == child]
    (Node.__eq__ compares the data objects), with its index *)
